@@ -111,7 +111,27 @@ def rewind_lines(ctx):
     return out
 
 
+def exec_lines(ctx):
+    """operations run with `exec` count towards the limits of the script that is current — not of the next one: exec in the scriptSig phase of a
+    two-script session, then the scriptPubKey at its own limit; exec at the limit itself"""
+    from .c04 import session_line
+    out = []
+    NOPUSH = R.STD & ~(1 << R.FLAG_BITS["SIGPUSHONLY"]) & ~(1 << R.FLAG_BITS["CLEANSTACK"])
+    for sig in (bytes([0x51]), bytes([0x51, 0x61]), bytes([0x01, 0x07])):
+        for n in (199, 200, 201, 202):
+            for fl in (NOPUSH, R.STD & ~(1 << R.FLAG_BITS["CLEANSTACK"])):
+                for toks in ("OP_NOP", "OP_NOP,OP_NOP,OP_NOP", "OP_DUP,OP_DROP", "OP_1"):
+                    for cmds in ("x" + "s" * (n + 4), "sx" + "s" * (n + 3), "xx" + "s" * (n + 4), "s" * len(sig) + "x" + "s" * (n + 2), "xsr" + "s" * (n + 4)):
+                        out.append(session_line(0, fl, sig, (), bytes([0x61]) * n, cmds).replace("SESSION ", "SESSIONX ", 1) + " " + toks)
+    for sv in (0, 1, 3):
+        for n in (199, 200, 201):
+            out.append(session_line(sv, 0, bytes([0x51]) + bytes([0x61]) * n, (), b"", "s" * n + "x" + "ss" + "x", weight=(1000 if sv == 3 else None)).replace("SESSION ", "SESSIONX ", 1) + " OP_NOP,OP_NOP")
+    return out
+
+
 def run(ctx):
+    xl = exec_lines(ctx)
+    ctx.compare("limits-with-exec", xl, ctx.harness_sharded(xl), ctx.driver_sharded(xl, "model"), None, nontrivial=lambda c, im: "+" in im.split(" ")[0])
     spend_limits(ctx)
     rl = rewind_lines(ctx)
     ctx.compare("limits-under-rewind", rl, ctx.harness_sharded(rl), ctx.driver_sharded(rl, "model"), ctx.driver_sharded(rl, "spec"), nontrivial=lambda c, im: "+" in im.split(" ")[0])
